@@ -249,7 +249,7 @@ func analyseFilePkg(c *core.Ctx) *fileAnalysis {
 				continue
 			}
 			void := fn.Signature.Results().Len() == 0
-			recv := "$" + fn.Params[0].Name()
+			recv := an.ParamDesc(fn.Params[0])
 			var common map[string]bool
 			retRecv := !void
 			n := 0
@@ -847,7 +847,7 @@ func c14(c *core.Ctx, r *core.Report) {
 				}
 				// requirement on a parameter?
 				for _, p := range fn.Params {
-					if strings.HasPrefix(path, "$"+p.Name()+".") {
+					if strings.HasPrefix(path, an.ParamDesc(p)+".") {
 						nReq++
 						reqs = append(reqs, req{fn, "nn:" + path, in})
 						r.Note(key, an.Pos(c, in), "becomes an entry requirement of %s", core.FuncName(fn))
@@ -876,7 +876,7 @@ func c14(c *core.Ctx, r *core.Report) {
 				kind, p := q.fact[:i+1], q.fact[i+1:]
 				ok := false
 				for pi, prm := range q.fn.Params {
-					pre := "$" + prm.Name()
+					pre := an.ParamDesc(prm)
 					if strings.HasPrefix(p, pre+".") && pi < len(call.Common().Args) {
 						tr := kind + fa.canon[caller](d.Of(call.Common().Args[pi])) + strings.TrimPrefix(p, pre)
 						ok = e.At(call)[tr]
